@@ -138,7 +138,7 @@ def entry_points_by_interpretation(repo):
             if fn is None:
                 raise AnalysisError("anchor vanished: %s.%s" % (cname, mname))
             tr = Translator(repo, hooks=hooks, max_depth=3)
-            so = SelfObj(cls, {"gauss_constr": SelfObj(gc, {}), "batch": sp.Symbol("batch"), "fcns": []})
+            so = SelfObj(cls, {"gauss_constr": SelfObj(gc, {"constraint": {"theta_c": (sp.Symbol("mu_c", real=True), sp.Symbol("sigma_c", positive=True))}}), "batch": sp.Symbol("batch"), "fcns": []})
             args = [sp.Symbol("x")] + ([P] if mname == "grad_hessp" else [])
             try:
                 got = tr.call_fn(fn, args, self_obj=so)
@@ -645,15 +645,23 @@ def check_gauss_constr(repo, chk, parts=("value", "grad", "hess")):
 
     from ..sym import SelfObj, Translator, Unmodelled, equal
     MODEL = "tf_pwa/model/model.py"
-    chk.rule("G-constr", "GaussianConstr on a manager with trainable a, c and fixed b, constraints on a and b: the term is sum_i (theta_i - mu_i)^2 / (2 sigma_i^2) over every constrained parameter (a fixed one included: it is part of the reported NLL, e.g. in a likelihood scan), and get_constrain_grad / get_constrain_hessian are its first / second derivatives with respect to the trainable parameters, in trainable_vars order")
+    chk.rule("G-constr", "GaussianConstr on a manager with trainable a (carrying a range, as during a fit), c and fixed b, constraints on a and b: the term is sum_i (theta_i - mu_i)^2 / (2 sigma_i^2) over every constrained parameter (a fixed one included: it is part of the reported NLL, e.g. in a likelihood scan), and get_constrain_grad / get_constrain_hessian are its first / second derivatives with respect to the trainable parameters, in trainable_vars order")
     gc = repo.cls(MODEL + "::GaussianConstr")
     a, b, c = sp.symbols("theta_a theta_b theta_c", real=True)
     ma, mb = sp.symbols("mu_a mu_b", real=True)
     sa_, sb_ = sp.symbols("sigma_a sigma_b", positive=True)
-    vm = SelfObj(repo.cls("tf_pwa/variable.py::VarsManager"), {"variables": {"a": a, "b": b, "c": c}, "trainable_vars": ["a", "c"]})
+    # a carries a range (the state between set_bound and remove_bound, i.e. during a fit): the penalty is a function of
+    # the physical value, never of the fit coordinate
+    bcls = repo.cls("tf_pwa/variable.py::Bound")
+    y2x = sp.Function("fit_coordinate")
+    hooks = {"concrete_zeros": True, "stack_as_array": True, "builtin.isinstance": lambda tr_, a_, k_, n_: True}
+    for nm_ in ("get_y2x", "get_x2y"):
+        if nm_ in bcls.methods:
+            hooks[bcls.methods[nm_].key] = (lambda f_: (lambda tr_, args, kwargs, node: f_(sp.sympify(args[-1]))))(y2x if nm_ == "get_y2x" else sp.Function("physical_value"))
+    vm = SelfObj(repo.cls("tf_pwa/variable.py::VarsManager"), {"variables": {"a": a, "b": b, "c": c}, "trainable_vars": ["a", "c"], "bnd_dic": {"a": SelfObj(bcls, {})}, "pre_trans": {}, "mask_vars": {}, "complex_vars": {}, "same_list": []})
     so = SelfObj(gc, {"vm": vm, "constraint": {"a": (ma, sa_), "b": [mb, sb_]}})
     want_term = (a - ma) ** 2 / (2 * sa_ ** 2) + (b - mb) ** 2 / (2 * sb_ ** 2)
-    tr = Translator(repo, hooks={"concrete_zeros": True, "stack_as_array": True, "builtin.isinstance": lambda tr_, a_, k_, n_: True}, max_depth=2)
+    tr = Translator(repo, hooks=hooks, max_depth=3)
 
     def run_(name):
         m = gc.methods.get(name)
@@ -858,6 +866,9 @@ def check_transform_wrappers(repo, chk, only=None):
 
 
 def run(repo, chk, tier):
+    from ..tapescope import check_tape_scope
+
+    check_tape_scope(repo, chk, ["tf_pwa/model/"], min_functions=10)
     check_transform_wrappers(repo, chk)
     check_sumvar(repo, chk)
     check_sumvar_call(repo, chk)
